@@ -70,7 +70,7 @@ func (v DenseInt8Vector) APPEND(w DenseInt8Vector) DenseInt8Vector {
   return append(v, w...)
 }
 func (v DenseInt8Vector) ToDenseInt8Matrix(n, m int) *DenseInt8Matrix {
-  if n*m != len(v) {
+  if n < 0 || m < 0 || n*m != len(v) {
     panic("Matrix dimension does not fit input vector!")
   }
   matrix := DenseInt8Matrix{}
